@@ -1245,13 +1245,23 @@ class AgProtocol(utils.EventEmitter):
             if trailer == -1:
                 return
 
-            # Isolate the AT response code and parameters.
+            # Isolate the AT command and consume its bytes before parsing them, so
+            # that a command that cannot be parsed is not parsed again each time
+            # more data is received.
             raw_command = self.read_buffer[:trailer]
-            command = AtCommand.parse_from(raw_command)
-            logger.debug(f"<<< {raw_command.decode()}")
-
-            # Consume the response bytes.
             self.read_buffer = self.read_buffer[trailer + 1 :]
+
+            # Ignore empty lines.
+            if not raw_command.strip():
+                continue
+
+            try:
+                command = AtCommand.parse_from(raw_command)
+            except (ValueError, ProtocolError) as error:
+                logger.warning('Invalid AT command %r: %s', bytes(raw_command), error)
+                self.send_response('ERROR')
+                continue
+            logger.debug(f"<<< {raw_command.decode()}")
 
             if command.sub_code == AtCommand.SubCode.TEST:
                 handler_name = f'_on_{command.code.lower()}_test'
